@@ -773,3 +773,124 @@ theorem nsteps_window_lower (t s dt : K) (hdt : 0 < dt) :
 
 end
 end PdeVerif.Controller
+
+namespace PdeVerif.Controller
+open PdeVerif
+
+section
+variable {K : Type} [Field K] [LinearOrder K] [IsStrictOrderedRing K] [FloorRing K]
+variable {S σ : Type}
+
+/-! ### the step count of a run that reaches the end of the loop (shared by C07 and C08) -/
+
+/-- every pass through the loop body takes at least one step -/
+theorem advance_progress (c : Cfg K S σ) (st : LState K S σ) :
+    st.steps + 1 ≤ (advance c st).steps := by
+  have hn := one_le_nsteps st.t (clip (nextAction (mainHandle c st).1) c.tEnd) c.dt
+  show st.steps + 1 ≤ st.steps + _
+  omega
+
+/-- one pass through the loop body never steps beyond the final step count, whatever the
+trackers ask for -/
+theorem bound_advance (c : Cfg K S σ) (hdt : 0 < c.dt) (he1 : c.eps < 1 / 2)
+    (st : LState K S σ) (hl : st.t = c.tStart + st.steps * c.dt)
+    (hc : st.t < c.tEnd - c.eps * c.dt) : (advance c st).steps ≤ finalStepCount c := by
+  set x := (c.tEnd - c.tStart) / c.dt - c.eps with hx
+  have hk : (st.steps : Int) < Int.ceil x := by
+    rw [hl] at hc; exact (cond_iff_lt c hdt st.steps).mp hc
+  have hN : ((finalStepCount c : Nat) : Int) = Int.ceil x := by
+    unfold finalStepCount; rw [← hx]; omega
+  have hle : x ≤ (Int.ceil x : K) := Int.le_ceil x
+  have hT : c.tEnd - c.tStart ≤ ((Int.ceil x : K) + c.eps) * c.dt := by
+    have : (c.tEnd - c.tStart) / c.dt ≤ (Int.ceil x : K) + c.eps := by linarith
+    exact (div_le_iff₀ hdt).mp this
+  set s := clip (nextAction (mainHandle c st).1) c.tEnd with hs
+  have hsle : s ≤ c.tEnd := clip_le _ _
+  obtain ⟨m, hm⟩ : ∃ m : Nat, (m : Int) = Int.ceil x - st.steps := ⟨(Int.ceil x - st.steps).toNat, by omega⟩
+  have hm1 : 1 ≤ m := by omega
+  have hmK : (m : K) = (Int.ceil x : K) - (st.steps : K) := by
+    have : ((m : Int) : K) = ((Int.ceil x - (st.steps : Int) : Int) : K) := by rw [hm]
+    push_cast at this; exact this
+  have hlt : (s - st.t) / c.dt < (m : K) + 1 / 2 := by
+    rw [div_lt_iff₀ hdt, hmK, hl]
+    nlinarith
+  have hn := nsteps_le st.t s c.dt m hm1 hlt
+  show st.steps + nsteps st.t s c.dt ≤ finalStepCount c
+  omega
+
+/-- accounting invariant together with the bound -/
+def Bounded (c : Cfg K S σ) (u0 : S) (st : LState K S σ) : Prop :=
+  Acc c u0 st ∧ st.steps ≤ finalStepCount c
+
+theorem loop_bounded (c : Cfg K S σ) (hdt : 0 < c.dt) (he1 : c.eps < 1 / 2) (u0 : S) (fuel : Nat)
+    (st : LState K S σ) (h : Bounded c u0 st) : Bounded c u0 (loop c fuel st).1 := by
+  refine loop_invariant' c (Bounded c u0) ?_ ?_ fuel st h
+  · intro st ⟨ha, _⟩ hc _
+    exact ⟨acc_advance c u0 st ha, bound_advance c hdt he1 st ha.1 hc⟩
+  · intro st ⟨ha, hb⟩ _ _ _
+    exact ⟨acc_halted c u0 st ha, hb⟩
+
+/-- **no_overshoot**: the run never takes more steps than `⌈T/dt - eps⌉`, on every path and for
+every tracker list and schedule -/
+theorem no_overshoot (c : Cfg K S σ) (hdt : 0 < c.dt) (he1 : c.eps < 1 / 2) (u0 : S)
+    (trs : List (Tracker K S σ)) (fuel : Nat) :
+    (runFuel c u0 trs fuel).steps ≤ finalStepCount c := by
+  show (finalHandle c _).1.steps ≤ _
+  rw [finalHandle_steps]
+  exact (loop_bounded c hdt he1 u0 fuel _ ⟨acc_init c u0 trs, Nat.zero_le _⟩).2
+
+/-- the loop ends regularly exactly at the final step count -/
+theorem loop_final_steps (c : Cfg K S σ) (hdt : 0 < c.dt) (he1 : c.eps < 1 / 2) (u0 : S) (fuel : Nat)
+    (st : LState K S σ) (h : Bounded c u0 st) (hf : (loop c fuel st).2 = .final) :
+    (loop c fuel st).1.steps = finalStepCount c := by
+  obtain ⟨ha, hb⟩ := loop_bounded c hdt he1 u0 fuel st h
+  have hc := loop_exit_final c fuel st hf
+  rw [ha.1, cond_iff_lt c hdt] at hc
+  unfold finalStepCount at hb ⊢
+  omega
+
+
+/-- a run that reaches the end of the loop has taken exactly `⌈T/dt - eps⌉` steps -/
+theorem run_steps_of_reachedEnd (c : Cfg K S σ) (hdt : 0 < c.dt) (he1 : c.eps < 1 / 2) (u0 : S)
+    (trs : List (Tracker K S σ)) (fuel : Nat) (h : (runFuel c u0 trs fuel).exit.reachedEnd) :
+    (runFuel c u0 trs fuel).steps = finalStepCount c := by
+  have h' : (finalHandle c (loop c fuel (initState c u0 trs))).2.reachedEnd := h
+  rw [finalHandle_reachedEnd c _ (fun r => loop_ne_finalStopped c r _ _)] at h'
+  show (finalHandle c _).1.steps = _
+  rw [finalHandle_steps]
+  exact loop_final_steps c hdt he1 u0 fuel _ ⟨acc_init c u0 trs, Nat.zero_le _⟩ h'
+
+theorem run_tFinal_lattice (c : Cfg K S σ) (u0 : S) (trs : List (Tracker K S σ)) (fuel : Nat) :
+    (runFuel c u0 trs fuel).tFinal = c.tStart + (runFuel c u0 trs fuel).steps * c.dt := by
+  show (finalHandle c _).1.t = c.tStart + ((finalHandle c _).1.steps : K) * c.dt
+  rw [finalHandle_t, finalHandle_steps]
+  exact (loop_acc c u0 fuel _ (acc_init c u0 trs)).1
+
+theorem finalStepCount_whole (c : Cfg K S σ) (hdt : 0 < c.dt) (he0 : 0 < c.eps) (he1 : c.eps < 1 / 2)
+    (N : Nat) (hN : c.tEnd - c.tStart = N * c.dt) : finalStepCount c = N := by
+  unfold finalStepCount
+  have e : (c.tEnd - c.tStart) / c.dt - c.eps = (N : K) - c.eps := by
+    rw [hN]; field_simp
+  rw [e]
+  have : Int.ceil ((N : K) - c.eps) = (N : Int) := by
+    rw [Int.ceil_eq_iff]; push_cast; constructor <;> linarith
+  rw [this]; simp
+
+/-- a whole range ends exactly at `t_end` -/
+theorem run_tFinal_whole (c : Cfg K S σ) (hdt : 0 < c.dt) (he0 : 0 < c.eps) (he1 : c.eps < 1 / 2)
+    (N : Nat) (hN : c.tEnd - c.tStart = N * c.dt) (u0 : S) (trs : List (Tracker K S σ)) (fuel : Nat)
+    (h : (runFuel c u0 trs fuel).exit.reachedEnd) : (runFuel c u0 trs fuel).tFinal = c.tEnd := by
+  rw [run_tFinal_lattice, run_steps_of_reachedEnd c hdt he1 u0 trs fuel h,
+    finalStepCount_whole c hdt he0 he1 N hN]
+  linarith
+
+end
+end PdeVerif.Controller
+
+namespace PdeVerif.Controller
+section
+variable {K S σ : Type}
+/-- a tracker that never asks to stop (read-only observer) -/
+def Tracker.ReadOnly (tr : Tracker K S σ) : Prop := ∀ n t u, tr.stopAt n t u = none
+end
+end PdeVerif.Controller
